@@ -187,6 +187,12 @@ def run_case(args):
                            ('', R.choice(PATS), [{'cmd': 'g', 'loc': '', 'pat': '(b', 'list': [{'cmd': 'd', 'loc': ''}]}])])
             badfirst.append(fp)
             pre += ('%sg/%s/%s\n' % (fp[0], fp[1], render_list(fp[2]))).encode()
+    switched = False
+    if not big and first is None and not badfirst and R.random() < 0.08:
+        # an earlier global whose command list left for another buffer (its scan ends there); back in this buffer, whatever that
+        # global had marked and not yet visited must mean nothing to the next one
+        switched = True
+        pre = (pre or b'') + ('%sg/%s/%s\n' % (R.choice(['', '%', '1,%d' % b]), R.choice(PATS + ['.', '.']), R.choice(['e! f2', 'e! f2', 'b 9|e! f2']))).encode() + b'e! f1\n1\n'
     setpat = None
     if not big and R.random() < 0.08 and '/' not in loc and '?' not in loc:
         # the global is written with an empty pattern: it uses the pattern of an earlier command
@@ -238,7 +244,7 @@ def run_case(args):
     if txt:
         blocks = (''.join(t + '\n' for t in txt) + '.\n').encode() * (M.executions + 3)
     script = pre + b'w! d0\n' + prefail + gcmd + blocks + b'ec ' + S(1) + b'\n.=\nec ' + S(2) + b'\nw! d1\nu\nw! d2\n'
-    r, d = common.run_ex(vi, script, files={'f1': gen.buf_bytes(lines)}, timeout=60)
+    r, d = common.run_ex(vi, script, files={'f1': gen.buf_bytes(lines), 'f2': b'other file\n'}, timeout=60)
     d0, d1, d2 = (common.readf(d, x) for x in ('d0', 'd1', 'd2'))
     common.rmcase(d)
     wit = {'index': idx, 'lines': lines, 'command': gcmd, 'script': script}
